@@ -20,9 +20,21 @@ def gen_cases(tier, seed):
     n = 700 if tier == "quick" else 20000
     for i in range(n):
         yield {"seed": "%d:%d" % (seed, i), "impl": ("sync", "async")[i % 2]}
+    # several streams of ONE actor alive at once (generators consumed alternately): packets of the stream that is not reading get parked and are taken from the store later
+    for i in range(150 if tier == "quick" else 3000):
+        yield {"kind": "interleave", "seed": "%d:il%d" % (seed, i), "impl": ("sync", "async")[i % 2]}
 
 
 def run_case(case):
+    if case.get("kind") == "interleave":
+        from checks import c01
+        res = c01.run_interleave(case)
+        st = res["stats"]
+        stats = {"interleaved_generators": st.get("interleaved_generators", 0), "interleave_switches": st.get("interleave_switches", 0), "okays_checked": st.get("okays_for_interleaved_streams", 0)}
+        seen = {}
+        for v in res.get("c04", []):
+            seen.setdefault(v["mechanism"], v)
+        return {"sig": ("c04" + res["sig"]) if res.get("sig") else None, "violations": list(seen.values())[:3], "stats": stats, "sample": None}
     rng = gen.rng_for("C04", case["seed"])
     sc = scen.gen_scenario(rng, nsteps=rng.randint(1, 12), big=rng.random() < 0.05, fails=True, long_cmds=True, dirs=True, hist=True)
     sc["dims"]["early_close"] = rng.random() < 0.4
